@@ -1,16 +1,33 @@
 (* Parser.run: parse_data (Model/Pre.v) with the real statement parser, Output.format, json_dump. *)
 From Coq Require Import String Ascii List ZArith NArith Bool.
-From SDP Require Import Base PyStr Regex Json Actions Parse Pre Output.
+From SDP Require Import Base PyStr Regex Json LR RealTables Lexer Actions Parse Pre Output.
 From SDP.Gen Require Tokens.
 Import ListNotations.
 Open Scope string_scope.
 
-(* Parser.parse_statement: a SimpleDDLParserException (syntax error with silent=False, or t_error) is
-   swallowed when silent (fix of D8), raised otherwise *)
+(* did PLY report a syntax error (p_error was called) while parsing the statement in the given mode? *)
+Definition is_error_event (e : event) : bool := match e with EError _ | EErrorEnd => true | _ => false end.
+Definition statement_had_error (silent : bool) (s : string) : bool :=
+  match scan s with
+  | Ok lxs =>
+    match classify_all flags0 lxs with
+    | Ok (toks, _) =>
+      match toks_to_ids term_id toks with
+      | Ok ids => match lr_trace silent real_tables ids with Ok evs => existsb is_error_event evs | _ => false end
+      | _ => false
+      end
+    | _ => false
+    end
+  | _ => false
+  end.
+(* Parser.parse_statement: a SimpleDDLParserException (syntax error with silent=False, or t_error) is swallowed when silent (fix of D8),
+   raised otherwise; any other exception of a grammar action is swallowed when a syntax error was recorded before it (fix b0266a0:
+   only the silent run gets past p_error), raised otherwise *)
 Definition parse_stmt_of (norm silent : bool) (s : string) : res (option pyval) :=
   match parse_statement norm silent s with
   | Raise DDLParserError => if silent then Ok None else Raise DDLParserError
   | Raise SimpleDDLParserException => if silent then Ok None else Raise SimpleDDLParserException
+  | Raise e => if silent && statement_had_error silent s then Ok None else Raise e
   | r => r
   end.
 
